@@ -174,6 +174,7 @@ def load_program(repo=REPO, ndebug=True, witness_units=("instantiate.cpp",), ver
         return src, out, rc, err
 
     prog = Program()
+    prog.repo, prog.ndebug, prog.cache = repo, ndebug, cache
     raw = {}
     prog.config = "NDEBUG" if ndebug else "DEBUG"
     with ThreadPoolExecutor(max_workers=16) as ex:
